@@ -1044,6 +1044,7 @@ def run(ctx, out):
         run_cases([d["case"]], out, tag="corpus")
         out.sample({"corpus": fn, "holds": len(out.violations) == before})
     ws_control_oracle(out)
+    ws_control_correspondence(ctx, out)
     pool = multiprocessing.get_context("fork").Pool(WORKERS) if WORKERS > 1 else None
     try:
         # 2. exhaustive small scope
@@ -1083,6 +1084,8 @@ def run(ctx, out):
         if v["signature"] in seen_sig or len(seen_sig) >= 4:
             continue
         seen_sig.add(v["signature"])
+        if v["signature"] == "C06-ws-control-frame":
+            continue                                  # a scenario of the control-frame oracle: already minimal
         mc = shrink(v["case"], v["signature"])
         _, mv, _, _ = execute(mc)
         mv = [x for x in mv if x["signature"] == v["signature"]]
@@ -1112,6 +1115,111 @@ def run(ctx, out):
             exp += [len(rest)] + list(rest)
             if r_ != exp:
                 out.disagreements.append({"what": "python deframe differs from the extracted deframe", "wire": list(w)[:200]})
+
+
+def ws_control_correspondence(ctx, out):
+    """Link/WsControl.v against the real _WebsocketWrapper: sequences of _send_impl / _send_control_frame calls (the latter
+    through recv() of an inbound PING / CLOSE frame, as the code reaches it), raw-socket behaviour per call (accept k bytes,
+    would block, OSError), mask keys through the os proxy.  After every call: result / exception, len(_sendbuffer),
+    _data_pending, _requested_size; at the end the raw byte stream.  The caller protocol of _packet_write (offer the same packet
+    again until it is reported written) is followed for most sequences and broken on purpose for some."""
+    rng = ctx.rng
+    n_cases = ctx.n(400, 3000)
+    cases = []
+    for ci in range(n_cases):
+        nk = rng.choice([1, 2, 3])
+        keys = [bytes(rng.randrange(256) for _ in range(4)) for _ in range(nk)]
+        ops = []
+        cur = None
+        follow = rng.random() < 0.8
+        for _ in range(rng.choice([1, 2, 3, 4, 6, 9])):
+            oc = rng.choice([0, 0, 0, 0, 1, 1, 2])
+            k = rng.choice([0, 1, 2, 3, 5, 6, 7, 8, 9, 20, 200, 70000]) if oc == 0 else 0
+            if rng.random() < 0.4:
+                op = rng.choice([9, 9, 8])
+                payload = bytes(rng.randrange(256) for _ in range(rng.choice([0, 1, 2, 5, 125])))
+                ops.append((1, 10 if op == 9 else 8, oc, k, payload, op))
+            else:
+                if cur is None or not follow:
+                    size = rng.choice([1, 2, 5, 6, 30, 125, 126, 127, 300] + ([65535, 65536, 66000] if not ctx.quick and rng.random() < 0.1 else []))
+                    cur = bytes(rng.randrange(256) for _ in range(size))
+                ops.append((0, 2, oc, k, cur, None))
+        cases.append((keys, ops, follow))
+    results = []
+    for keys, ops, follow in cases:
+        proxy = _OsProxy(keys)
+        saved = mqtt.os
+        mqtt.os = proxy
+        try:
+            raw = impl.FakeSock()
+            ws = _WsNoHandshake(raw, "h", 1883, False, "/mqtt", None)
+            obs = []
+            fixed = []
+            cur_written = True
+            for kind, opcode, oc, k, data, inop in ops:
+                if oc == 0:
+                    raw.send_plan.append(k if k > 0 else 10 ** 9)   # Accept 0 is modelled as a send() of 0 bytes below
+                elif oc == 1:
+                    raw.send_plan.append(0)
+                else:
+                    raw.send_plan.append(-1)
+                zero = (oc == 0 and k == 0)
+                if zero:
+                    raw.send_plan.pop()
+                    real_send = raw.send
+                    raw.send = lambda d: 0
+                try:
+                    if kind == 0:
+                        r = ws.send(data)
+                    else:
+                        raw.feed(bytes([0x80 | inop, len(data)]) + data)
+                        r = 0
+                        try:
+                            got = ws.recv(4096)
+                            if got == b"" and not ws.connected:
+                                r = -2             # _recv_impl turns the ConnectionError of the raw send() into "closed"
+                                ws.connected = True
+                        except BlockingIOError:
+                            # either the reply could not be written (the model says -1) or, after a written reply, there is
+                            # nothing more to read (a control frame carries no data for the caller)
+                            r = -1 if (oc == 1) else 0
+                        except OSError:
+                            r = -2
+                except BlockingIOError:
+                    r = -1
+                except OSError:
+                    r = -2
+                finally:
+                    if zero:
+                        raw.send = real_send
+                raw.send_plan.clear()
+                dp = getattr(ws, "_data_pending", None)
+                obs += [int(r), len(ws._sendbuffer), -1 if dp is None else int(bool(dp)), int(ws._requested_size)]
+                fixed.append((kind, opcode, oc, k, data))
+            results.append((keys, fixed, obs, bytes(raw.wire)))
+        except Exception as e:      # noqa: BLE001
+            results.append((keys, [(o[0], o[1], o[2], o[3], o[4]) for o in ops], ["raised", repr(e)], b""))
+        finally:
+            mqtt.os = saved
+    args = []
+    for keys, ops, obs, wire in results:
+        a = [len(keys)] + [b for k in keys for b in k]
+        for kind, opcode, oc, k, data in ops:
+            a += [kind, opcode, oc, k, len(data)] + list(data)
+        args.append(a)
+    model_out = model.run_batch("writer", 4, args)
+    for (keys, ops, obs, wire), mo in zip(results, model_out):
+        out.cases += 1
+        out.stat("ws_control_model_cases")
+        want = obs + [-9] + list(wire) if obs[:1] != ["raised"] else obs
+        if want == mo:
+            out.validated += 1
+        else:
+            out.disagreements.append({"what": "WebSocket wrapper vs Link/WsControl.v", "impl": want[:60], "model": mo[:60],
+                                      "case": {"keys": [list(k) for k in keys],
+                                               "ops": [[kind, opcode, oc, k, list(data)] for kind, opcode, oc, k, data in ops]}})
+    out.notes.append(f"control-frame correspondence: {len(results)} sequences of _send_impl/_send_control_frame calls "
+                     "(PING/CLOSE arriving between partial writes; accept k / would-block / OSError per call)")
 
 
 def ws_control_oracle(out):
